@@ -7,15 +7,24 @@
    [st_att_total] / [st_det_total] are ghost counters (successful attaches / detaches of a stream);
    [released s] is the number of consumers whose Close must have been called by now: all that were
    ever attached once the stream has ended, the detached ones while it is live.  [GUnregistAll] is
-   media.UnregistAll (server shutdown). *)
+   media.UnregistAll (server shutdown).
+   HLS viewers are not consumers: the idle task sees them only through the playlist's last-access
+   time, which Playlist.M3u8 / Playlist.Segment (av/format/hls) stamp and NewPlaylist initialises.
+   [st_hls_idle] is the logical time elapsed since that stamp ([GTick] advances the clock of every
+   playlist), [st_segs] the number of segments ever added to the playlist (it keeps the last 3 and
+   serves the m3u8 only with 3); [GSeg] / [GHlsPoll] / [GHlsSeg] are a finished segment, a playlist
+   request and a segment request; the idle decision [GIdle i d] has the period as its argument.
+   [v_hlsstamp] = a playlist request counts as an access whatever the playlist state. *)
 From Coq Require Import ZArith List Bool.
 From V Require Import Bytes StrGo.
 Import ListNotations.
 Open Scope Z_scope.
 
-Record rvariant := { v_unmap : bool; v_anycons : bool }.
-Definition rfixed := {| v_unmap := true; v_anycons := true |}.
-Definition roriginal := {| v_unmap := false; v_anycons := false |}.
+Record rvariant := { v_unmap : bool; v_anycons : bool; v_hlsstamp : bool }.
+Definition rfixed := {| v_unmap := true; v_anycons := true; v_hlsstamp := true |}.
+Definition roriginal := {| v_unmap := false; v_anycons := false; v_hlsstamp := true |}.
+(* a playlist that records a poll as an access only when it can be served (a seeded change, never in /repo) *)
+Definition rpollunstamped := {| v_unmap := true; v_anycons := true; v_hlsstamp := false |}.
 
 Record strm := {
   st_path : bytes;        (* canonical path fixed at creation *)
@@ -25,7 +34,9 @@ Record strm := {
   st_retire : bool;       (* replaced while it had consumers: a retire task is pending *)
   st_hls : bool;          (* the stream has an HLS playlist (H.264 + AAC) *)
   st_att_total : Z;       (* ghost: attach operations on this stream that succeeded *)
-  st_det_total : Z        (* ghost: detach operations on this stream that succeeded *)
+  st_det_total : Z;       (* ghost: detach operations on this stream that succeeded *)
+  st_hls_idle : Z;        (* logical time since the playlist's last access (creation counts) *)
+  st_segs : Z             (* segments ever added to the playlist; it lists the last 3 *)
 }.
 
 (* the number of consumers of the stream whose Close must have been called *)
@@ -49,7 +60,7 @@ Definition mstore (m : list (bytes * nat)) (k : bytes) (v : nat) : list (bytes *
   mdelete m k ++ [(k, v)].
 
 Definition strm0 : strm := {| st_path := []; st_live := false; st_rtp := 0; st_flv := 0; st_retire := false; st_hls := false;
-                              st_att_total := 0; st_det_total := 0 |}.
+                              st_att_total := 0; st_det_total := 0; st_hls_idle := 0; st_segs := 0 |}.
 Definition sget (g : rstate) (i : nat) : strm := nth i (g_streams g) strm0.
 Fixpoint lset {A} (l : list A) (i : nat) (v : A) : list A :=
   match l, i with
@@ -60,6 +71,21 @@ Fixpoint lset {A} (l : list A) (i : nat) (v : A) : list A :=
 Definition sset (g : rstate) (i : nat) (v : strm) : rstate :=
   {| g_map := g_map g; g_streams := lset (g_streams g) i v |}.
 
+(* HLS side of a stream *)
+Definition hls_touch (s : strm) (stamp : bool) (segs : Z) : strm :=
+  {| st_path := st_path s; st_live := st_live s; st_rtp := st_rtp s; st_flv := st_flv s; st_retire := st_retire s;
+     st_hls := st_hls s; st_att_total := st_att_total s; st_det_total := st_det_total s;
+     st_hls_idle := if stamp then 0 else st_hls_idle s; st_segs := segs |}.
+Definition age_strm (d : Z) (s : strm) : strm :=
+  {| st_path := st_path s; st_live := st_live s; st_rtp := st_rtp s; st_flv := st_flv s; st_retire := st_retire s;
+     st_hls := st_hls s; st_att_total := st_att_total s; st_det_total := st_det_total s;
+     st_hls_idle := st_hls_idle s + Z.max 0 d; st_segs := st_segs s |}.
+Definition hls_usable (s : strm) : bool := st_live s && st_hls s.
+Definition servable (s : strm) : bool := 3 <=? st_segs s.                 (* hlsRemainSegments *)
+Definition seg_found (s : strm) (n : Z) : bool := (0 <=? n) && (st_segs s - 3 <=? n) && (n <? st_segs s).
+(* the idle task's view of HLS viewers: an access within the period *)
+Definition hls_recent (s : strm) (period : Z) : bool := st_hls s && (st_hls_idle s <? period).
+
 Section Reg.
 Variable V : rvariant.
 
@@ -68,7 +94,8 @@ Definition close_stream (g : rstate) (i : nat) : rstate :=
   let s := sget g i in
   if negb (st_live s) then g else
   let s' := {| st_path := st_path s; st_live := false; st_rtp := 0; st_flv := 0; st_retire := false; st_hls := st_hls s;
-               st_att_total := st_att_total s; st_det_total := st_det_total s |} in
+               st_att_total := st_att_total s; st_det_total := st_det_total s;
+      st_hls_idle := st_hls_idle s; st_segs := st_segs s |} in
   let g1 := sset g i s' in
   if v_unmap V then
     match mlookup (g_map g1) (st_path s) with
@@ -88,15 +115,20 @@ Inductive gop :=
 | GList
 | GAttach (i : nat) (flv : bool)
 | GDetach (i : nat) (flv : bool)
-| GIdle (i : nat) (hls_recent : bool)
-| GUnregistAll.
+| GIdle (i : nat) (period : Z)
+| GUnregistAll
+| GTick (d : Z)
+| GSeg (i : nat)
+| GHlsPoll (i : nat)
+| GHlsSeg (i : nat) (n : Z).
 
 Inductive gout :=
 | RUnit
 | RGet (r : option nat)
 | RCount (streams consumers : Z)
 | RList (paths : list bytes)
-| RIdle (closed : bool).
+| RIdle (closed : bool)
+| RHls (ok : bool).
 
 Definition consumers (s : strm) : Z := st_rtp s + st_flv s.
 
@@ -119,7 +151,7 @@ Definition gstep (g : rstate) (o : gop) : rstate * gout :=
       ({| g_map := g_map g;
           g_streams := g_streams g ++ [{| st_path := canonical_path p; st_live := true; st_rtp := 0;
                                           st_flv := 0; st_retire := false; st_hls := hls;
-                                          st_att_total := 0; st_det_total := 0 |}] |}, RUnit)
+                                          st_att_total := 0; st_det_total := 0; st_hls_idle := 0; st_segs := 0 |}] |}, RUnit)
   | GRegist i =>
       if negb (i <? length (g_streams g))%nat then (g, RUnit) else
       let s := sget g i in
@@ -131,7 +163,8 @@ Definition gstep (g : rstate) (o : gop) : rstate * gout :=
           if consumers old <=? 0 then (close_stream g1 j, RUnit)
           else (sset g1 j {| st_path := st_path old; st_live := st_live old; st_rtp := st_rtp old;
                              st_flv := st_flv old; st_retire := true; st_hls := st_hls old;
-                             st_att_total := st_att_total old; st_det_total := st_det_total old |}, RUnit)
+                             st_att_total := st_att_total old; st_det_total := st_det_total old;
+      st_hls_idle := st_hls_idle old; st_segs := st_segs old |}, RUnit)
       | None => ({| g_map := mstore (g_map g) (st_path s) i; g_streams := g_streams g |}, RUnit)
       end
   | GUnregist i =>
@@ -156,7 +189,8 @@ Definition gstep (g : rstate) (o : gop) : rstate * gout :=
       (sset g i {| st_path := st_path s; st_live := true;
                    st_rtp := if flv then st_rtp s else st_rtp s + 1;
                    st_flv := if flv then st_flv s + 1 else st_flv s; st_retire := st_retire s; st_hls := st_hls s;
-                   st_att_total := st_att_total s + 1; st_det_total := st_det_total s |}, RUnit)
+                   st_att_total := st_att_total s + 1; st_det_total := st_det_total s;
+      st_hls_idle := st_hls_idle s; st_segs := st_segs s |}, RUnit)
   | GDetach i flv =>
       let s := sget g i in
       if negb (i <? length (g_streams g))%nat || negb (st_live s) then (g, RUnit) else
@@ -164,17 +198,33 @@ Definition gstep (g : rstate) (o : gop) : rstate * gout :=
       (sset g i {| st_path := st_path s; st_live := true;
                    st_rtp := if flv then st_rtp s else st_rtp s - 1;
                    st_flv := if flv then st_flv s - 1 else st_flv s; st_retire := st_retire s; st_hls := st_hls s;
-                   st_att_total := st_att_total s; st_det_total := st_det_total s + 1 |}, RUnit)
-  | GIdle i hls_recent =>
-      (* one run of the zero-consumers close task *)
+                   st_att_total := st_att_total s; st_det_total := st_det_total s + 1;
+      st_hls_idle := st_hls_idle s; st_segs := st_segs s |}, RUnit)
+  | GIdle i period =>
+      (* one run of the zero-consumers close task with period [period] *)
       let s := sget g i in
       if negb (i <? length (g_streams g))%nat then (g, RIdle false) else
       let idle := (if v_anycons V then consumers s else st_rtp s) <=? 0 in
-      if idle && negb (hls_recent && st_hls s) then (close_stream g i, RIdle (st_live s)) else (g, RIdle false)
+      if idle && negb (hls_recent s period) then (close_stream g i, RIdle (st_live s)) else (g, RIdle false)
   | GUnregistAll =>
       (* media.UnregistAll: Range over the registry; each entry is deleted and its stream closed *)
       (fold_left (fun g' e => close_stream {| g_map := mdelete (g_map g') (fst e); g_streams := g_streams g' |} (snd e))
                  (g_map g) g, RUnit)
+  | GTick d => ({| g_map := g_map g; g_streams := map (age_strm d) (g_streams g) |}, RUnit)
+  | GSeg i =>
+      let s := sget g i in
+      if negb (i <? length (g_streams g))%nat || negb (hls_usable s) then (g, RUnit) else
+      (sset g i (hls_touch s false (st_segs s + 1)), RUnit)
+  | GHlsPoll i =>
+      (* Playlist.M3u8 *)
+      let s := sget g i in
+      if negb (i <? length (g_streams g))%nat || negb (hls_usable s) then (g, RHls false) else
+      (sset g i (hls_touch s (v_hlsstamp V || servable s) (st_segs s)), RHls (servable s))
+  | GHlsSeg i n =>
+      (* Playlist.Segment *)
+      let s := sget g i in
+      if negb (i <? length (g_streams g))%nat || negb (hls_usable s) then (g, RHls false) else
+      (sset g i (hls_touch s true (st_segs s)), RHls (seg_found s n))
   end.
 
 Fixpoint grun (g : rstate) (ops : list gop) : rstate * list gout :=
@@ -202,7 +252,8 @@ Definition sp_kill (g : sstate) (i : nat) : sstate :=
   let s := sp_get g i in
   if negb (st_live s) then g else
   sp_set g i {| st_path := st_path s; st_live := false; st_rtp := 0; st_flv := 0; st_retire := false; st_hls := st_hls s;
-                st_att_total := st_att_total s; st_det_total := st_det_total s |}.
+                st_att_total := st_att_total s; st_det_total := st_det_total s;
+      st_hls_idle := st_hls_idle s; st_segs := st_segs s |}.
 Definition sp_live (g : sstate) (e : bytes * nat) : bool := st_live (sp_get g (snd e)).
 Definition sp_resolve (g : sstate) (k : bytes) : option nat :=
   match mlookup (sp_last g) k with
@@ -216,7 +267,7 @@ Definition sstep (g : sstate) (o : gop) : sstate * gout :=
       ({| sp_last := sp_last g;
           sp_streams := sp_streams g ++ [{| st_path := canonical_path p; st_live := true; st_rtp := 0;
                                             st_flv := 0; st_retire := false; st_hls := hls;
-                                          st_att_total := 0; st_det_total := 0 |}] |}, RUnit)
+                                          st_att_total := 0; st_det_total := 0; st_hls_idle := 0; st_segs := 0 |}] |}, RUnit)
   | GRegist i =>
       if negb (i <? length (sp_streams g))%nat then (g, RUnit) else
       let s := sp_get g i in
@@ -228,7 +279,8 @@ Definition sstep (g : sstate) (o : gop) : sstate * gout :=
                   else (sp_set g1 j (let o := sp_get g j in
                           {| st_path := st_path o; st_live := st_live o; st_rtp := st_rtp o;
                              st_flv := st_flv o; st_retire := true; st_hls := st_hls o;
-                             st_att_total := st_att_total o; st_det_total := st_det_total o |}), RUnit)
+                             st_att_total := st_att_total o; st_det_total := st_det_total o;
+      st_hls_idle := st_hls_idle o; st_segs := st_segs o |}), RUnit)
       | None => (g1, RUnit)
       end
   | GUnregist i | GClose i =>
@@ -245,7 +297,8 @@ Definition sstep (g : sstate) (o : gop) : sstate * gout :=
       (sp_set g i {| st_path := st_path s; st_live := true;
                      st_rtp := if flv then st_rtp s else st_rtp s + 1;
                      st_flv := if flv then st_flv s + 1 else st_flv s; st_retire := st_retire s; st_hls := st_hls s;
-                   st_att_total := st_att_total s + 1; st_det_total := st_det_total s |}, RUnit)
+                   st_att_total := st_att_total s + 1; st_det_total := st_det_total s;
+      st_hls_idle := st_hls_idle s; st_segs := st_segs s |}, RUnit)
   | GDetach i flv =>
       let s := sp_get g i in
       if negb (i <? length (sp_streams g))%nat || negb (st_live s) then (g, RUnit) else
@@ -253,15 +306,31 @@ Definition sstep (g : sstate) (o : gop) : sstate * gout :=
       (sp_set g i {| st_path := st_path s; st_live := true;
                      st_rtp := if flv then st_rtp s else st_rtp s - 1;
                      st_flv := if flv then st_flv s - 1 else st_flv s; st_retire := st_retire s; st_hls := st_hls s;
-                   st_att_total := st_att_total s; st_det_total := st_det_total s + 1 |}, RUnit)
-  | GIdle i hls_recent =>
-      (* closed for idleness only with no consumer of any protocol and no recent HLS access *)
+                   st_att_total := st_att_total s; st_det_total := st_det_total s + 1;
+      st_hls_idle := st_hls_idle s; st_segs := st_segs s |}, RUnit)
+  | GIdle i period =>
+      (* closed for idleness only with no consumer of any protocol and no HLS access within the period *)
       let s := sp_get g i in
       if negb (i <? length (sp_streams g))%nat then (g, RIdle false) else
-      if (consumers s <=? 0) && negb (hls_recent && st_hls s) then (sp_kill g i, RIdle (st_live s)) else (g, RIdle false)
+      if (consumers s <=? 0) && negb (hls_recent s period) then (sp_kill g i, RIdle (st_live s)) else (g, RIdle false)
   | GUnregistAll =>
       (* shutdown: every stream that currently resolves ends *)
       (fold_left (fun g' e => sp_kill g' (snd e)) (filter (sp_live g) (sp_last g)) g, RUnit)
+  | GTick d => ({| sp_last := sp_last g; sp_streams := map (age_strm d) (sp_streams g) |}, RUnit)
+  | GSeg i =>
+      let s := sp_get g i in
+      if negb (i <? length (sp_streams g))%nat || negb (hls_usable s) then (g, RUnit) else
+      (sp_set g i (hls_touch s false (st_segs s + 1)), RUnit)
+  | GHlsPoll i =>
+      (* every playlist request is an access; it is served with at least 3 segments *)
+      let s := sp_get g i in
+      if negb (i <? length (sp_streams g))%nat || negb (hls_usable s) then (g, RHls false) else
+      (sp_set g i (hls_touch s true (st_segs s)), RHls (servable s))
+  | GHlsSeg i n =>
+      (* every segment request is an access; found iff among the last 3 *)
+      let s := sp_get g i in
+      if negb (i <? length (sp_streams g))%nat || negb (hls_usable s) then (g, RHls false) else
+      (sp_set g i (hls_touch s true (st_segs s)), RHls (seg_found s n))
   end.
 
 Fixpoint srun (g : sstate) (ops : list gop) : list gout :=
@@ -298,6 +367,7 @@ Definition gout_eqb (a b : gout) : bool :=
   | RList x, RList y => (fix eq (x y : list bytes) := match x, y with
                           | [], [] => true | a :: x', b :: y' => bytes_eqb a b && eq x' y' | _, _ => false end) x y
   | RIdle x, RIdle y => Bool.eqb x y
+  | RHls x, RHls y => Bool.eqb x y
   | _, _ => false
   end.
 
